@@ -207,6 +207,88 @@ def check_scte35_payload(ctx, sched, k, pt, data, inp):
                          (si.get('break_duration') or {}).get('duration'), k, pts, bdur), inp)
 
 
+def params_suite(ctx, n):
+    """EventBase / Scte35Events.check_parameters against EventsModel.params_ok / Scte35Model.scte35_params_ok: which schedules
+    are accepted (everything else is answered 400), at the boundaries of every field"""
+    from dashlive.server.events.scte35_events import Scte35Events
+    from dashlive.server.events.ping_pong import PingPongEvents
+    rng = ctx.rng
+    edge = [0, 1, 2, 255, 256, 508, 509, 510, 511, 1000, 65535, 65536, 95443, 95444, 2**32 - 1, 2**32, 2**33, 10**7, 10**11, -1]
+    reqs, meta = [], []
+    for i in range(n):
+        pick = lambda *more: rng.choice(edge + list(more))   # noqa
+        sched = {'start': pick(), 'interval': pick(100, 1000), 'count': pick(3), 'timescale': pick(100, 90000), 'duration': pick(200),
+                 'version': rng.choice([0, 1, 1, 2, -1]), 'inband': rng.random() < 0.8}
+        if rng.random() < 0.5:      # mostly sane, one field at an edge
+            base = {'start': 0, 'interval': 1000, 'count': 0, 'timescale': 100, 'duration': 200, 'version': 0, 'inband': True}
+            f = rng.choice(sorted(base))
+            base[f] = sched[f]
+            sched = base
+        scte = rng.random() < 0.6
+        pid = rng.choice([1620, 0, 65535, 65536, -1, 70000])
+        try:
+            if scte:
+                Scte35Events(program_id=pid, **sched).check_parameters()
+            else:
+                PingPongEvents(**sched).check_parameters()
+            got = 1
+        except ValueError:
+            got = 0
+        except Exception as e:  # noqa
+            ctx.violation('check_parameters raised %s for %r' % (type(e).__name__, sched), {'sched': sched, 'scte35': scte, 'program_id': pid})
+            continue
+        ctx.count('impl:check-parameters')
+        ctx.dist('check-parameters:%s' % ('accepted' if got else 'refused'))
+        # Scte35Events forces version 1 for in-band schedules before the check
+        ms = dict(sched)
+        if scte and ms['inband']:
+            ms['version'] = 1
+        reqs.append([7, model_sched(ms), 1 if scte else 0, pid])
+        meta.append(({'sched': sched, 'scte35': scte, 'program_id': pid}, got))
+        if got:
+            ctx.nontriv(('params', tuple(sorted(sched.items())), scte, pid))
+    res = common.run_model_parallel(14, reqs)
+    ok = True
+    for (inp, got), m in zip(meta, res):
+        if m != got:
+            ok = False
+            ctx.disagree('check_parameters', inp, m, got)
+    ctx.oblige('correspondence:check_parameters-vs-EventsModel.params_ok/scte35_params_ok', ok)
+
+
+def pts_sweep(ctx, n):
+    """the splice time of a SCTE-35 event at presentation times of the size a live stream reaches (seconds since 1970 in the
+    event timescale) for timescales that do not divide 90000: exact integer arithmetic, every event (Scte35Model.event_signal)"""
+    from dashlive.server.events.scte35_events import Scte35Events
+    rng = ctx.rng
+    for i in range(n):
+        ets = rng.choice([1000000, 10000000, 48000, 44100, 1001, 600, 3, 100, 90000])
+        sched = {'start': 0, 'interval': rng.choice([1, 1000, ets]), 'count': rng.choice([0, 2, 7]), 'timescale': ets,
+                 'duration': rng.choice([0, 1, ets * 30, rng.randrange(1, 95000 * ets)]), 'version': 1, 'inband': True}   # break_duration is a 33-bit field
+        secs = rng.choice([rng.randrange(17 * 10**8, 19 * 10**8), rng.randrange(1, 10**6), rng.randrange(2**40, 2**41)])
+        pt = secs * ets + rng.randrange(ets)
+        k = rng.randrange(0, sched['count']) if sched['count'] else rng.randrange(0, 2**32)   # event ids stay below a positive count
+        inp = {'sched': sched, 'k': k, 'pt': pt}
+        ctx.count('impl:scte35-large-pts')
+        try:
+            data = Scte35Events(**sched).get_emsg_event_payload(k, pt)
+        except Exception as e:  # noqa
+            ctx.violation('SCTE-35 payload for presentation time %d (timescale %d) raised %s' % (pt, ets, type(e).__name__), inp)
+            continue
+        check_scte35_payload(ctx, sched, k, pt, bytes(data), inp)
+        ctx.dist('large-pts:timescale=%d' % ets)
+        ctx.nontriv(('pts', ets, pt))
+    ok = True
+    if PENDING:
+        res = common.run_model_parallel(14, [p_[0] for p_ in PENDING])
+        for (rq, val, inp), m in zip(PENDING, res):
+            if m != val:
+                ok = False
+                ctx.disagree('scte35-fields (large presentation time)', inp, m, val)
+        del PENDING[:]
+    ctx.oblige('correspondence:Scte35Events.create_binary_signal(large times)-vs-Scte35Model.event_signal', ok)
+
+
 # --------------------------------------------------------------------------- SCTE-35 codec
 def width(rng, n):
     return rng.choice([0, 1, (1 << n) - 1, (1 << n) - 2, 1 << (n - 1), rng.randrange(1 << n)])
@@ -413,6 +495,8 @@ def run(ctx):
     ctx.assumptions += ['interval >= 1, count >= 0, run of consecutive segments (a_i+1 = b_i)',
                         'SCTE-35 round trip: field values within their bit widths, program splice / program segmentation']
     events_suite(ctx, 500 if ctx.quick() else 6000)
+    pts_sweep(ctx, 400 if ctx.quick() else 6000)
+    params_suite(ctx, 600 if ctx.quick() else 8000)
     scte35_suite(ctx, 600 if ctx.quick() else 8000)
 
 
